@@ -69,6 +69,24 @@ DetOK == stage = "start" =>
        IN /\ \A k \in 0..T.n : CMinors(T, Z)[k + 1] = <<Minors(T)[k + 1], 0>>
           /\ (CSomePivotZero(T, Z) <=> SomePivotZero(T))
           /\ CTDet(T, Y) = CDetFF(D, TDense(Y)) /\ CTDet(Y, T) = CDetFF(TDense(Y), D)
+    \* the polynomial-in-eps versions: on constant polynomials they are the integer ones; on T + eps Y the minors are
+    \* the mixed expansions (checked through the two substitutions eps = 1 and eps = -1)
+    /\ LET Lift(X) == [n |-> X.n, sub |-> [k \in 1..(X.n - 1) |-> << <<X.sub[k], 0>> >>], main |-> [k \in 1..X.n |-> << <<X.main[k], 0>> >>],
+                       sup |-> [k \in 1..(X.n - 1) |-> << <<X.sup[k], 0>> >>]]
+           Y == OtherT(T)
+           Mix == [n |-> T.n, sub |-> [k \in 1..(T.n - 1) |-> << <<T.sub[k], 0>>, <<Y.sub[k], 0>> >>], main |-> [k \in 1..T.n |-> << <<T.main[k], 0>>, <<Y.main[k], 0>> >>],
+                   sup |-> [k \in 1..(T.n - 1) |-> << <<T.sup[k], 0>>, <<Y.sup[k], 0>> >>]]
+           EvalAt(p, x) == LET RECURSIVE Go(_)
+                               Go(k) == IF k > Len(p) THEN 0 ELSE p[k][1] + x * Go(k + 1)
+                           IN Go(1)
+       IN /\ \A k \in 0..T.n : PIsZero(PSub(PMinors(Lift(T))[k + 1], << <<Minors(T)[k + 1], 0>> >>))
+          /\ (PSomePivotZero(Lift(T)) <=> SomePivotZero(T))
+          /\ \A k \in 0..T.n : /\ EvalAt(PMinors(Mix)[k + 1], 1) = Minors(TAdd(T, Y))[k + 1]
+                                /\ EvalAt(PMinors(Mix)[k + 1], -1) = Minors(TSub(T, Y))[k + 1]
+          /\ LET xs == [k \in 1..T.n |-> << <<k, 0>>, <<1, 0>> >>]           \* x_k = k + eps
+                 rr == [i \in 1..T.n |-> PRowDot(Mix, xs, i)]
+             IN PResidualZero(Mix, xs, 1, 0, rr) /\ ~PResidualZero(Mix, [xs EXCEPT ![1] = << <<2, 0>>, <<1, 0>> >>], 1, 0, rr)
+                /\ PResidualZero(Mix, [k \in 1..T.n |-> PMul(<< <<0, 0>>, <<3, 0>> >>, xs[k])], 3, 1, rr)
 \* every operation against the dense twin
 Laws == stage = "start" =>
     LET D == TDense(T)
